@@ -36,6 +36,7 @@ type csvRow struct {
 	Day  time.Time     `format:"2006-01-02"`
 	Dmy  time.Time     `format:"02/01/2006"`
 	Ydm  time.Time     `format:"2006-02-01" header:"ydm"`
+	Seen time.Time     // no format tag although the fields before it have one: the default layout, with the time of day
 	Dur  time.Duration // integer kinds whose types have a String method: the cell is the number
 	Wd   time.Weekday
 	Side sideT
@@ -61,6 +62,11 @@ var strPool = []string{"", "a", "plain text", "with,comma", `with "quotes"`, "mu
 	`C:\reports\raw\new\table`, `\r?\n`, `\\`, `\"`, `\,`, `\0`, "%0D%0A", "&#13;", `\u000d`, `\x0d`, `$1`, `{{.}}`, `%s %d`} // a carriage return not followed by a line feed is data (CR LF pairs are normalised by encoding/csv and stay out)
 var f64Pool = []float64{0, math.Copysign(0, -1), 1, -1, 0.1, 1.0 / 3, math.MaxFloat64, -math.MaxFloat64, math.SmallestNonzeroFloat64, 5e-324, 1e21, 1e-7, 123456789.123456789, math.Inf(1), math.Inf(-1), math.Pi}
 var f32Pool = []float32{0, 1, -1, 0.1, 1.0 / 3, math.MaxFloat32, math.SmallestNonzeroFloat32, 16777217, 1e-10}
+
+// zoned re-expresses the date and time of day of t in another zone (same reading, another instant).
+func zoned(t time.Time, z *time.Location) time.Time {
+	return time.Date(t.Year(), t.Month(), t.Day(), t.Hour(), t.Minute(), t.Second(), t.Nanosecond(), z)
+}
 
 func genCsvRow(rng *rand.Rand) *csvRow {
 	pickI := func(lo, hi int64) int64 {
@@ -93,10 +99,17 @@ func genCsvRow(rng *rand.Rand) *csvRow {
 		Day:  time.Date(2000+rng.Intn(60), time.Month(1+rng.Intn(12)), 1+rng.Intn(28), 0, 0, 0, 0, time.UTC),
 		Dmy:  time.Date(1990+rng.Intn(60), time.Month(1+rng.Intn(12)), 1+rng.Intn(28), 0, 0, 0, 0, time.UTC),
 		Ydm:  time.Date(1990+rng.Intn(60), time.Month(1+rng.Intn(12)), 1+rng.Intn(28), 0, 0, 0, 0, time.UTC),
+		Seen: time.Date(1990+rng.Intn(60), time.Month(1+rng.Intn(12)), 1+rng.Intn(28), rng.Intn(24), rng.Intn(60), rng.Intn(60), 0, time.UTC),
 		Dur:  time.Duration(rng.Int63n(1e12)) - 5e11,
 		Wd:   time.Weekday(rng.Intn(7)),
 		Side: sideT(rng.Intn(3) - 1),
 		Tail: strPool[rng.Intn(len(strPool))],
+	}
+	if rng.Intn(6) == 0 {
+		// the same dates and times of day, held in a zone other than UTC (a value that came from
+		// local time): the cell shows what the value reads in its own zone
+		z := time.FixedZone("", []int{9, -5, 13, -11}[rng.Intn(4)]*3600)
+		r.When, r.Day, r.Dmy, r.Ydm, r.Seen = zoned(r.When, z), zoned(r.Day, z), zoned(r.Dmy, z), zoned(r.Ydm, z), zoned(r.Seen, z)
 	}
 	if rng.Intn(4) == 0 {
 		r.U64 = math.MaxUint64
@@ -121,8 +134,11 @@ func sameCsvRow(a, b *csvRow) (bool, string) {
 				return false, fmt.Sprintf("field %s: %v != %v", name, fa.Float(), fb.Float())
 			}
 		case reflect.Struct:
+			// the layouts carry no zone: what round-trips is the date and time of day as the value
+			// reads in its own zone (for UTC values that is the instant)
 			ta, tb := fa.Interface().(time.Time), fb.Interface().(time.Time)
-			if !ta.Equal(tb) {
+			const wall = "2006-01-02 15:04:05.999999999"
+			if ta.Format(wall) != tb.Format(wall) {
 				return false, fmt.Sprintf("field %s: %v != %v", name, ta, tb)
 			}
 		default:
